@@ -45,8 +45,8 @@ ASSUMPTIONS = [
     "engines stay registered for the whole history (no engine disconnect in this property)",
 ]
 TIERS = {
-    "quick": {"cases": 12000, "budget_s": 45},
-    "thorough": {"cases": 400000, "budget_s": 700},
+    "quick": {"cases": 8000, "budget_s": 170},
+    "thorough": {"cases": 400000, "budget_s": 800},
 }
 
 UNITS = ["E1", "E2"]
